@@ -262,6 +262,9 @@ def render_val(v):
     return v
 
 
+LIBERAL = [False]      # exploration stream: type roots are NOT detached (implicit path factoring)
+
+
 def render(e, partial=None):
     """EdgeQL text of an expression.  `partial` = the variable currently denoted by a
     partial path (shape source)."""
@@ -275,7 +278,7 @@ def render(e, partial=None):
         ty = {'i': 'int64', 's': 'str', 'b': 'bool'}.get(t) or f'T{t[1:]}'
         return f'(<{ty}>{{}})'
     if k == 'root':
-        return f'(detached T{e[1]})'
+        return f'T{e[1]}' if LIBERAL[0] else f'(detached T{e[1]})'
     if k == 'var':
         if partial is not None and str(e[1]) == str(partial):
             raise ValueError('bare reference to a shape source cannot be rendered')
@@ -342,8 +345,12 @@ def render(e, partial=None):
     raise ValueError('render: ' + str(k))
 
 
-def render_query(e):
-    return 'select ' + render(e)
+def render_query(e, liberal=False):
+    LIBERAL[0] = liberal
+    try:
+        return 'select ' + render(e)
+    finally:
+        LIBERAL[0] = False
 
 
 # ----------------------------------------------------------------------------- walking
